@@ -28,7 +28,8 @@ type Git struct {
 func New(scratch string) *Git {
 	h := filepath.Join(scratch, "githome")
 	os.MkdirAll(h, 0o755)
-	return &Git{Home: h, Timeout: 120 * time.Second}
+	// generous: the machine may be heavily loaded; run.sh's watchdog is the real bound
+	return &Git{Home: h, Timeout: 20 * time.Minute}
 }
 
 func (g *Git) env() []string {
